@@ -196,6 +196,33 @@ pub fn run(tier: Tier, seed: u64) -> i32 {
         }
         rep.add(blk);
     }
+    // a foreign next-free hint (valid, just past the last cluster, far out of range, reserved values, "unknown") and a
+    // session that only FREES clusters: it stores a new count, and the hint it stores with it has to be in range
+    if !rep.failed() {
+        let mut blk = Block::new("foreign_next_free_hint_then_a_session_that_only_frees");
+        let mut work: Vec<(usize, i64, u8)> = Vec::new();
+        for preset in [12usize, 13] {
+            for hint in [0i64, 1, -1, 2, 40, -2, -3, -4] {
+                for how in [0u8, 1] {
+                    work.push((preset, hint, how));
+                }
+            }
+        }
+        for (wi, (preset, hint, how)) in work.iter().enumerate() {
+            let mut out = run::CaseOut::default();
+            out.hash = run::hash_str(&format!("hint{}", wi));
+            out.nontrivial = true;
+            out.violation = foreign_hint_case(*preset, *hint, *how).err();
+            let cj = serde_json::json!({"preset": preset, "hint": hint, "how": how});
+            blk.record(&out, || cj.clone());
+            if let Some(m) = out.violation {
+                if blk.failure.is_none() {
+                    blk.failure = Some(run::Failure { message: m, case: cj, kind: "hint".into() });
+                }
+            }
+        }
+        rep.add(blk);
+    }
     if !rep.failed() {
         let n = tier.pick(a.quick_cases, a.thorough_cases);
         rep.add(hist::random_block(&a, "random_stats_after_every_call", seed, n / 2));
@@ -210,4 +237,54 @@ pub fn run(tier: Tier, seed: u64) -> i32 {
         }
     }
     rep.finish()
+}
+
+/// `hint`: >= 0: last cluster + hint (0 = the last cluster itself, 1 = just past it ...); -1: 0xFFFFFFFF ("unknown"),
+/// -2: 0, -3: 1, -4: 0x0FFFFFFF. `how`: 0 = remove a two-cluster file, 1 = truncate it to its first cluster.
+pub fn foreign_hint_case(preset: usize, hint: i64, how: u8) -> Result<(), String> {
+    use crate::refdec;
+    use crate::session::{Clock, MountOpts, Session};
+    use fatfs::{Seek, Write};
+    let v = VolCfg::from_preset(preset);
+    let dev = crate::vol::make_device(&v)?;
+    let clock = Clock::new(600_000_000_000);
+    let cs = v.cluster_size() as usize;
+    {
+        let s = Session::mount(&dev, &clock, &MountOpts::default()).map_err(|e| format!("HARNESS: mount: {:?}", e))?;
+        let mut f = s.root().create_file("two clusters.bin").map_err(|e| format!("HARNESS: {:?}", e))?;
+        f.write_all(&vec![7u8; cs + 9]).map_err(|e| format!("HARNESS: {:?}", e))?;
+        drop(f);
+        s.unmount().map_err(|e| format!("HARNESS: unmount: {:?}", e))?;
+    }
+    let g = dev.with_store(|st| refdec::Geom::parse(st)).map_err(|e| format!("HARNESS: {}", e))?;
+    let maxc = g.max_cluster();
+    let raw: u32 = match hint {
+        -1 => 0xFFFF_FFFF,
+        -2 => 0,
+        -3 => 1,
+        -4 => 0x0FFF_FFFF,
+        h => (maxc as i64 + h) as u32,
+    };
+    dev.with(|d| d.store.write_at(g.fsinfo_off() + 492, &raw.to_le_bytes()));
+    {
+        let s = Session::mount(&dev, &clock, &MountOpts::default()).map_err(|e| format!("mount of a volume whose FS-info next-free hint is {:#x}: {:?}", raw, e))?;
+        if how == 0 {
+            s.root().remove("two clusters.bin").map_err(|e| format!("remove: {:?}", e))?;
+        } else {
+            let mut f = s.root().open_file("two clusters.bin").map_err(|e| format!("open: {:?}", e))?;
+            f.seek(fatfs::SeekFrom::Start(5)).map_err(|e| format!("seek: {:?}", e))?;
+            f.truncate().map_err(|e| format!("truncate: {:?}", e))?;
+            drop(f);
+        }
+        s.unmount().map_err(|e| format!("unmount: {:?}", e))?;
+    }
+    let (_, _, count, next, _) = dev.with_store(|st| refdec::fsinfo(st, &g));
+    let table = dev.with_store(|st| g.count_free(st));
+    if count != 0xFFFF_FFFF && count as u64 != table {
+        return Err(format!("FS-info hint {:#x} at mount, a session that only frees: the information sector written at unmount says {} free clusters, the table has {}", raw, count, table));
+    }
+    if next != 0xFFFF_FFFF && !(2..=maxc).contains(&next) {
+        return Err(format!("FS-info hint {:#x} at mount, a session that only frees: the information sector written at unmount carries the next-free hint {:#x}, outside 2..={:#x}", raw, next, maxc));
+    }
+    Ok(())
 }
